@@ -113,7 +113,7 @@ def body(ctx, desc, x):
     shape = tuple(desc["shape"])
     n = len(shape)
     kind = desc.get("kind", "all")
-    labels = ["n%d" % i for i in range(n)]
+    labels = ["n%d " % i if i % 2 else "n%d" % i for i in range(n)]  # some renderings end in a blank
     if kind == "clones":
         labels = [["x", "y"][x["l%d" % i]] for i in range(n)]
     try:
@@ -158,6 +158,32 @@ def body(ctx, desc, x):
                 exp = join.join(ref_lines(shape, labels, s, add_self, labels[s], style))
                 if got != exp:
                     return "node.format(add_self=%s)" % add_self
+    # history: everything was rendered once; un-nest the first node that has
+    # children and render again against the structure read from the child lists
+    if kind == "all" and k in (22, 27, 28):
+        victim = None
+        for i in range(n):
+            if children_of(shape, i):
+                victim = i
+                break
+        if victim is not None:
+            nodes[victim].remove(keep_children=True)
+            from vlib import build as B
+
+            w = B.walk(tree)
+            nodes2 = [nd for nd, _ in w]
+            shape2 = tuple(-1 if par is None else [q for q, m in enumerate(nodes2) if m is par][0] for _, par in w)
+            labels2 = [nd.data for nd in nodes2]
+            for s2 in range(len(nodes2)):
+                for add_self in (True, False):
+                    got = nodes2[s2].format(repr="{node.data}", style=arg, add_self=add_self, join=join)
+                    exp = join.join(ref_lines(shape2, labels2, s2, add_self, labels2[s2], style))
+                    if got != exp:
+                        return "node.format-after-remove(keep_children)(add_self=%s)" % add_self
+            got = tree.format(repr="{node.data}", style=arg, join=join, title="t")
+            if got != join.join(ref_lines(shape2, labels2, -1, True, "t", style)):
+                return "tree.format-after-remove(keep_children)"
+        return ""
     # default style and default repr
     got = tree.format()
     exp = "\n".join(ref_lines(shape, [repr(l) for l in labels], -1, True, "Tree<'T'>", CONNECTORS["round43"]))
